@@ -85,7 +85,14 @@ Additions of the loop ties of wave e4 (C14 / C16 / C07; marked `[loop ties e4]`;
   statements : `L.remove(x)` on an LS name with x a str: L without its first item equal to x (a closed local fixpoint; the
                ValueError of an absent x is a recorded error path);
                `if x is None: x = d` on an optional boolean x with d itself an optional boolean: x stays optional -- its own
-               value when it has one, else d's (a plain-boolean d narrows x as before)"""
+               value when it has one, else d's (a plain-boolean d narrows x as before)
+Additions of the loop ties of C01 / C02, second batch (marked `[loop ties e1]`; additive, fail-closed):
+  statements : `T['col'] = T.apply(lambda row: E, axis=1)` read per row as `T['col'] = E` with every cell `row['c']` read as
+               `T['c']` (the lambda takes exactly the row and reads it only as `row['<column>']`, E neither mentions T nor
+               binds names);
+               `T = g(args)` where the spec declares function-typed parameters keyed `g['col']`: from there on `T['col']` is
+               `g['col'] args` (the row's cell in that column of the table g returns); T must be assigned once
+  expressions: `s.startswith(t)` on two strings (Base/Str.v str_prefix t s); `v if c else None` with v : B / OB (an OB)"""
 import ast, os, sys, glob, importlib.util
 from fractions import Fraction
 
@@ -808,6 +815,13 @@ class FnTranslator:
             if a[1] != 'S':
                 raise Refuse('.lower() on a non-string')
             return ('(unchars (lower (chars %s)))' % a[0], 'S')
+        if isinstance(f, ast.Attribute) and f.attr == 'startswith' and len(n.args) == 1 and not n.keywords:
+            # [loop ties e1] s.startswith(t) on two strings: t is a prefix of s (Base/Str.v str_prefix t s; the tuple-of-prefixes
+            # and start / end forms of str.startswith are refused: one argument, both of type S)
+            a, b = self.expr(f.value, env), self.expr(n.args[0], env)
+            if a[1] != 'S' or b[1] != 'S':
+                raise Refuse('%s: .startswith on types %s / %s' % (self.rel, a[1], b[1]))
+            return ('(str_prefix %s %s)' % (b[0], a[0]), 'B')
         if isinstance(f, ast.Attribute) and isinstance(f.value, ast.Name) and f.value.id in ('np', 'numpy', 'math') \
                 and f.attr in ('maximum', 'minimum', 'fmax', 'fmin') and len(n.args) == 2:
             f = ast.Name(id='max' if 'max' in f.attr else 'min', ctx=ast.Load())
@@ -1208,6 +1222,37 @@ class FnTranslator:
                 # (declared as parameters keyed `row.<column>`); E must not mention T itself
                 out.append(ast.Assign(targets=[s.targets[0]], value=s.value.elt))
                 continue
+            if isinstance(s, ast.Assign) and len(s.targets) == 1 and isinstance(s.targets[0], ast.Subscript) \
+                    and isinstance(s.targets[0].value, ast.Name) and isinstance(s.targets[0].slice, ast.Constant) \
+                    and isinstance(s.targets[0].slice.value, str) and isinstance(s.value, ast.Call) \
+                    and ast.unparse(s.value.func) == s.targets[0].value.id + '.apply' \
+                    and len(s.value.args) == 1 and isinstance(s.value.args[0], ast.Lambda) \
+                    and [(k.arg, ast.unparse(k.value)) for k in s.value.keywords] == [('axis', '1')]:
+                # [loop ties e1] T['col'] = T.apply(lambda row: E, axis=1): DataFrame.apply with axis=1 calls the function once
+                # per row of T with that row and the results form a Series on T's own index, which the column assignment places
+                # row by row; inside E the cell `row['c']` is T['c'] of that row -- per row it is T['col'] = E[row['c'] := T['c']].
+                # Refused unless the lambda takes exactly the row, reads it only as `row['<column>']`, and E neither mentions T
+                # itself nor binds names.
+                import copy
+                lam, tname = s.value.args[0], s.targets[0].value.id
+                la = lam.args
+                if la.vararg or la.kwarg or la.kwonlyargs or la.posonlyargs or la.defaults or len(la.args) != 1:
+                    raise Refuse('%s: %s.apply(lambda ..., axis=1) with a lambda that does not take exactly the row' % (self.rel, tname))
+                rname = la.args[0].arg
+                if rname == tname or any(isinstance(x, ast.Name) and x.id == tname for x in ast.walk(lam.body)) \
+                        or any(isinstance(x, (ast.Lambda, ast.NamedExpr, ast.ListComp, ast.GeneratorExp, ast.SetComp, ast.DictComp)) for x in ast.walk(lam.body)):
+                    raise Refuse('%s: %s.apply(lambda %s: ..., axis=1): the body mentions %s / binds names' % (self.rel, tname, rname, tname))
+                class _Cells(ast.NodeTransformer):
+                    def visit_Subscript(self, n):
+                        if isinstance(n.value, ast.Name) and n.value.id == rname and isinstance(n.slice, ast.Constant) \
+                                and isinstance(n.slice.value, str) and isinstance(n.ctx, ast.Load):
+                            return ast.Subscript(value=ast.Name(id=tname, ctx=ast.Load()), slice=n.slice, ctx=ast.Load())
+                        return self.generic_visit(n)
+                body = _Cells().visit(copy.deepcopy(lam.body))
+                if any(isinstance(x, ast.Name) and x.id == rname for x in ast.walk(body)):
+                    raise Refuse("%s: %s.apply(lambda %s: ..., axis=1): the row is read other than as %s['<column>']" % (self.rel, tname, rname, rname))
+                out.append(ast.Assign(targets=[s.targets[0]], value=body))
+                continue
             if isinstance(s, ast.Assign) and len(s.targets) == 1 and isinstance(s.targets[0], ast.Name) \
                     and isinstance(s.value, ast.Call) and isinstance(s.value.func, ast.Attribute) and s.value.func.attr == 'assign' \
                     and isinstance(s.value.func.value, ast.Name) and s.value.func.value.id == s.targets[0].id \
@@ -1427,6 +1472,25 @@ class FnTranslator:
             # `if not c: raise`); A and the rest are translated
             self.guards.append('not (%s)' % ast.unparse(s.test))
             return self.block(list(s.body) + rest, env, ret)
+        if isinstance(s, ast.Assign) and len(s.targets) == 1 and isinstance(s.targets[0], ast.Name) \
+                and isinstance(s.value, ast.Call) and isinstance(s.value.func, ast.Name) \
+                and any(k.startswith(s.value.func.id + "['") and env[k][1].startswith('F:') for k in env):
+            # [loop ties e1] T = g(args) where the spec declares function-typed parameters keyed `g['col']`: the table g returns
+            # is read, per row, through these columns only -- the row's cell in column 'col' is the pure function g['col'] of
+            # the call's arguments (see fn_type; every declared slot must be given) -- and from here on `T['col']` is that
+            # value.  T itself is not a value (any other use is an unknown name); refused when T is assigned a second time in
+            # the function (a stale `T['col']` could otherwise outlive the table it was read from).
+            T, g = s.targets[0].id, s.value.func.id
+            if sum(1 for x in ast.walk(getattr(self, 'cur_fnode', s)) if isinstance(x, ast.Name) and isinstance(x.ctx, ast.Store) and x.id == T) > 1:
+                raise Refuse('%s: %s = %s(...) read by columns, but %s is assigned more than once' % (self.rel, T, g, T))
+            env2 = {k: v for k, v in env.items() if k != T and not k.startswith(T + '[')}
+            lets = []
+            for k in [k for k in env if k.startswith(g + "['") and env[k][1].startswith('F:')]:
+                term, ty = self.call(ast.Call(func=ast.parse(k, mode='eval').body, args=s.value.args, keywords=s.value.keywords), env)
+                nm = self.new(''.join(c if c.isalnum() else '_' for c in T + k[len(g):]).strip('_'))
+                env2[T + k[len(g):]] = (nm, ty)
+                lets.append('(let %s := %s in\n   ' % (nm, term))
+            return ''.join(lets) + self.block(rest, env2, ret) + ')' * len(lets)
         if isinstance(s, ast.Assign):
             key, vnode = self.norm_assign(s, env) if len(s.targets) == 1 else (None, None)
             if key is None:
@@ -1910,6 +1974,12 @@ class FnTranslator:
             other = a or b
             if other is None:
                 raise Refuse('both branches NaN')
+            if other[1] in ('B', 'OB'):
+                # [loop ties e1] `v if c else None` with v a boolean / an optional boolean: the optional boolean (None on the
+                # None side, `Some v` / v on the other)
+                ta = 'None' if a is None else self.coerce(a, 'OB')
+                tb = 'None' if b is None else self.coerce(b, 'OB')
+                return ('(if %s then %s else %s)' % (c, ta, tb), 'OB')
             if other[1] in ('OQ', 'OZ'):
                 oty, wrap = other[1], (lambda t: t)
             else:
